@@ -300,15 +300,18 @@ def rule_region_forwarders(ctx, prog, eff):
         elif nm in ("read_volatile_from", "read_exact_volatile_from", "write_volatile_to", "write_all_volatile_to"):
             ok = t is not None and match(C("Result::map_err", C("Bytes::" + nm, slice_, addr(2), P(3), P(4)), FN("Into::into")), t, {})
         elif nm in ("store", "load"):
-            e = {}
-            ok = t is not None and match(C("Result::and_then", C("GuestMemoryRegion::as_volatile_slice", P(1)), CLO("c")), t, e)
-            if ok:
-                cb, ct = closure_ret(prog, eff, e["c"])
-                if nm == "store":
-                    ok = ct is not None and match(C("Result::map_err", C("Bytes::store", P(2), P(2), addr(3), P(4)), FN("Into::into")), ct, {})
-                else:
-                    ok = ct is not None and match(C("Result::map_err", C("Bytes::load", P(2), addr(2), P(3)), FN("Into::into")), ct, {})
-                detail += f"; closure `{tstr(ct)[:160] if ct else '?'}`"
+            # outcome table, whatever the spelling (and_then + closure, `?`, match): as_volatile_slice() fails => that failure; else the
+            # region-wide slice's own store / load at addr.raw_value(), its error converted by Into
+            from ..outcomes import outcome_spec
+            from ..pat import ERRP, VF, OKP
+            AVS = C("GuestMemoryRegion::as_volatile_slice", P(1))
+            OP = C("Bytes::store", OKP(AVS), P(2), addr(3), P(4)) if nm == "store" else C("Bytes::load", OKP(AVS), addr(2), P(3))
+            outcome_spec(ctx, prog, eff, "R3.5.region_forwarder", b,
+                         [(AGG("Result", "Ok", OKP(OP)), [('discr', AVS, 0), ('discr', OP, 0)]),
+                          (AGG("Result", "Err", C("Into::into", VF(OP, "Err"))), [('discr', AVS, 0), ('discr', OP, 1)]),
+                          (ERRP(AVS), [('discr', AVS, 1)])],
+                         f"the region-wide slice's own {nm} with addr.raw_value() and the remaining arguments in place; errors handed on")
+            continue
         else:
             continue
         ctx.ob("R3.5.region_forwarder", b.key, ok, b.where(), detail + f"; required: the region-wide slice's own {nm} with addr.raw_value() and the remaining arguments in place")
